@@ -35,6 +35,9 @@ type gate struct {
 	// side gets a FIN or RST
 	blackhole atomic.Bool
 	held      []net.Conn
+	// delay: every new connection waits this long (ns) before it is relayed: a
+	// slow handshake
+	delay atomic.Int64
 }
 
 // pump copies src to dst; while the gate is a black hole it swallows the data
@@ -95,6 +98,9 @@ func newGate(target string) *gate {
 					delete(g.conns, c)
 					g.mu.Unlock()
 				}()
+				if d := g.delay.Load(); d > 0 {
+					time.Sleep(time.Duration(d))
+				}
 				u, err := net.DialTimeout("tcp", g.target, 2*time.Second)
 				if err != nil {
 					return
@@ -190,6 +196,19 @@ func runC16Reconnect(c c16Reconnect) (sig, msg string) {
 		time.Sleep(150 * time.Millisecond) // the listeners are retrying
 		stop()
 		g.reopen()
+	case "mid-handshake":
+		// the connection is lost, the server is reachable again but slow to
+		// answer: the listener is stopped while its reconnect handshake is under way
+		g.shut()
+		if !registered(0) {
+			return "registered-after-connection-lost", fmt.Sprintf("%s: connections cut, node still has %v", desc, nd.State().LocalNode().Endpoints)
+		}
+		g.delay.Store(int64(700 * time.Millisecond))
+		g.reopen()
+		time.Sleep(350 * time.Millisecond) // a retry (backoff <= 100ms) is now inside the delayed handshake
+		stop()
+		time.Sleep(time.Second)
+		g.delay.Store(0)
 	case "after-reconnect":
 		g.shut()
 		if !registered(0) {
@@ -273,7 +292,7 @@ func c16ReconnectCases() []c16Reconnect {
 	var out []c16Reconnect
 	for _, n := range []int{1, 2} {
 		for _, s := range []string{"shutdown", "close"} {
-			for _, w := range []string{"while-connected", "during-outage", "after-reconnect"} {
+			for _, w := range []string{"while-connected", "during-outage", "mid-handshake", "after-reconnect"} {
 				out = append(out, c16Reconnect{n, s, w})
 			}
 		}
